@@ -54,6 +54,7 @@ pub fn instr_to_op<'a>(i: &J, t_void: u32, t_res: &dyn Fn(u64) -> wasmparser::Bl
         "cond" => Operator::Call { function_index: N_OP + i["k"].as_u64().unwrap() as u32 },
         "probe" => Operator::Call { function_index: N_OP + N_COND + i["p"].as_u64().unwrap() as u32 },
         "block" => Operator::Block { blockty: t_res(i["r"].as_u64().unwrap_or(0)) },
+        "try" => Operator::TryTable { try_table: wasmparser::TryTable { ty: t_res(i["r"].as_u64().unwrap_or(0)), catches: vec![] } },
         "loop" => Operator::Loop { blockty: t_res(i["r"].as_u64().unwrap_or(0)) },
         "if" => Operator::If { blockty: t_res(i["r"].as_u64().unwrap_or(0)) },
         "else" => Operator::Else,
@@ -80,6 +81,7 @@ fn enc_instr(i: &J, f: &mut wasm_encoder::Function) {
         "cond" => f.instruction(&I::Call(N_OP + i["k"].as_u64().unwrap() as u32)),
         "probe" => f.instruction(&I::Call(N_OP + N_COND + i["p"].as_u64().unwrap() as u32)),
         "block" => f.instruction(&I::Block(bt(i["r"].as_u64().unwrap_or(0)))),
+        "try" => f.instruction(&I::TryTable(bt(i["r"].as_u64().unwrap_or(0)), std::borrow::Cow::Borrowed(&[]))),
         "loop" => f.instruction(&I::Loop(bt(i["r"].as_u64().unwrap_or(0)))),
         "if" => f.instruction(&I::If(bt(i["r"].as_u64().unwrap_or(0)))),
         "else" => f.instruction(&I::Else),
@@ -220,6 +222,7 @@ pub fn decode_body(bytes: &[u8]) -> Result<(Vec<J>, Vec<String>), String> {
                             }
                         }
                         Operator::Block { blockty } => json!({"o":"block","r":bt(blockty)}),
+                        Operator::TryTable { try_table } if try_table.catches.is_empty() => json!({"o":"try","r":bt(&try_table.ty)}),
                         Operator::Loop { blockty } => json!({"o":"loop","r":bt(blockty)}),
                         Operator::If { blockty } => json!({"o":"if","r":bt(blockty)}),
                         Operator::Else => json!({"o":"else"}),
